@@ -58,6 +58,12 @@ def validate(module: str, traces: list[dict], *, cfg: str | None = None, chunk: 
         for mm in re.finditer(r'<<"REJECT", (\d+), (\d+)>>', res.out):
             t, pos = int(mm.group(1)), int(mm.group(2))
             rejected.append((part[t - 1], pos))
+        seen = set()
+        for mm in re.finditer(r'<<"BAD", (\d+), (\d+)>>', res.out):
+            t, pos = int(mm.group(1)), int(mm.group(2))
+            if (t, pos) not in seen:
+                seen.add((t, pos))
+                rejected.append((part[t - 1], -pos))   # negative position: judged event, walk continued
         if verdict is not None:
             verdict.add_tlc(res, f"trace-validation {module} {label} [{i}:{i + len(part)}]")
         f.unlink(missing_ok=True)
